@@ -22,7 +22,8 @@ SOLVER = "cuqi/solver/_solver.py"
 
 
 def _norm(e) -> str:
-    return unparse(e).replace(" ", "").replace("\n", "")
+    from .common import vstr
+    return vstr(e)
 
 
 class _ToFunctionForm(ast.NodeTransformer):
